@@ -437,15 +437,40 @@ func checkC18(c *Ctx) {
 		r.failf("parquet.PageHeader not found")
 		return
 	}
+	// header consumers: functions of the runtime that obtain a page header from the source — by calling PageHeader or a
+	// helper that does and returns the header — and go on to interpret a payload (hand the header, or the source, to a
+	// function that reads from the source). The acquiring helper itself is walked as part of its caller.
+	reachHdr := map[*ssa.Function]bool{}
+	reachesHdr := func(f *ssa.Function) bool {
+		if v, ok := reachHdr[f]; ok {
+			return v
+		}
+		res := f == hdrFn
+		for g2 := range u.reach([]*ssa.Function{f}) {
+			if g2 == hdrFn {
+				res = true
+			}
+		}
+		reachHdr[f] = res
+		return res
+	}
+	returnsHeader := func(f *ssa.Function) bool {
+		res := f.Signature.Results()
+		return res.Len() >= 1 && strings.HasSuffix(res.At(0).Type().String(), "schema.PageHeader")
+	}
 	var consumers []*ssa.Function
 	for _, f := range u.Funcs {
-		if u.pkgPathOf(f) != rtPath || f.Synthetic != "" {
+		if u.pkgPathOf(f) != rtPath || f.Synthetic != "" || returnsHeader(f) {
 			continue
 		}
 		for _, b := range f.Blocks {
 			for _, ins := range b.Instrs {
 				call, ok := ins.(*ssa.Call)
-				if !ok || call.Call.StaticCallee() != hdrFn || !t.AnyArg(call) {
+				if !ok || !t.AnyArg(call) {
+					continue
+				}
+				sc := call.Call.StaticCallee()
+				if sc == nil || !returnsHeader(sc) || !reachesHdr(sc) {
 					continue
 				}
 				var hdr ssa.Value
@@ -461,7 +486,7 @@ func checkC18(c *Ctx) {
 				interprets := false
 				for _, ref := range *hdr.Referrers() {
 					if c2, ok := ref.(*ssa.Call); ok {
-						if sc := c2.Call.StaticCallee(); sc != nil && u.InUniverse(sc) && ops.intrinsic[sc] {
+						if sc2 := c2.Call.StaticCallee(); sc2 != nil && u.InUniverse(sc2) && ops.intrinsic[sc2] {
 							interprets = true
 						}
 					}
@@ -471,7 +496,7 @@ func checkC18(c *Ctx) {
 				}
 				consumers = append(consumers, f)
 				r.count("FG/header-consumers", 1)
-				viol, _, _, iters := g.explore(f, call, hdr)
+				viol, iters := g.exploreInlined(hdrFn, f, call)
 				key := u.FnName(f)
 				pos := u.Pos(call.Pos())
 				if iters == 0 {
